@@ -13,7 +13,7 @@
 
       validate_verdict   : order_ok pi -> schema_ok S = true -> [further decidable hypotheses, below] ->
                            (validate_model repaired pi S F D = Done [] <-> Valid S F D)
-      validate_error_located : In e errs -> validate_model repaired pi S F D = Done errs ->
+      validate_error_located : order_ok pi -> In e errs -> validate_model repaired pi S F D = Done errs ->
                            e_locs e <> [] /\ every location is the position of a node of D
 
     proved here:  - never Panic / OutOfFuel, any schema and document          (C04_validate_no_panic)
@@ -71,13 +71,23 @@
                     sit at pairwise distinct positions (true of every parsed document)
                                                                               (C04_validate_verdict, C04_validate_verdict_plain,
                                                                                C04_invalid_rejected)
-    NOT proved: validate_error_located (covered on every run by the correspondence check only).
-    The theorems named ..._partial are the earlier, weaker forms of validate_verdict; they are kept
-    because other properties cite them. *)
+                  - validate_error_located: every error the validator returns (with the memo and without) carries
+                    at least one location and each of its locations is the position of a node of the document -
+                    of a node ast.Inspect visits or of the type condition of a fragment definition, which it
+                    does not visit ([all_node_positions], the list the check compares reported locations with);
+                    no hypothesis on the schema or the document.  Rule group by rule group (operations, both
+                    field visitors incl. the overlapping-fields pass, arguments, fragment declarations, spreads
+                    and the cycle search, values incl. validateCoercion, directives, variables incl. the work
+                    list), from: every subtree of the document's tree is the tree ast.Inspect walks beneath its
+                    root node, so the parts of a visited node are nodes of the document; NewTypeInfo moves nothing
+                                                                              (C04_validate_error_located, C04_validate_error_located_plain,
+                                                                               C04_node_closure, C04_node_positions_annotated)
+    Both statements of DESIGN section 4 are proved.  The theorems named ..._partial are the earlier,
+    weaker forms of validate_verdict; they are kept because other properties cite them. *)
 From Coq Require Import List NArith Bool.
 From ApiFu Require Import Base.Sexp Vld.Ast Vld.Inspect Vld.InspectProofs Vld.TypeInfoModel Vld.TypeInfoPure Vld.ValidatorModel Vld.ValidSpec
      Vld.Hyps Vld.ProofsCommon Vld.ProofsDirectives Vld.ProofsArguments Vld.ProofsFragDecl Vld.ProofsValues
-     Vld.ProofsCycles Vld.ProofsVarsOrder Vld.ProofsOrder Vld.ProofsOperations Vld.ProofsTotal Vld.Enumerate Vld.ProofsFields Vld.ProofsMemo Vld.ValidatorProofs Vld.ProofsSpreads Vld.ProofsSecondary Vld.ProofsSecondaryAll Vld.ProofsSpreadsSpec Vld.ProofsFieldsConverse Vld.ProofsVarsConverse Vld.ProofsComplete Vld.ProofsCollect Vld.ProofsMergeSound Vld.ProofsMergeNames Vld.ProofsMergeLocal Vld.ProofsCollectEntries Vld.ProofsMergeSpec Vld.ProofsValid Vld.ProofsPossibleFields Vld.ProofsSpecCollect Vld.ProofsSubscription Vld.ProofsSpecReach Vld.ProofsVarsSpec Vld.ProofsDepth Vld.ProofsDepthRule Vld.MemoTransfer Vld.ProofsMemoConverse Vld.MemoEquiv Vld.ProofsTypeInfoValues Vld.Witness Vld.ProofsSpecMergeTheory Vld.ProofsSpecCollectP Vld.ProofsSpecLoc Vld.ProofsMergeBridge Vld.ProofsMergeComplete Vld.ProofsVerdict.
+     Vld.ProofsCycles Vld.ProofsVarsOrder Vld.ProofsOrder Vld.ProofsOperations Vld.ProofsTotal Vld.Enumerate Vld.ProofsFields Vld.ProofsMemo Vld.ValidatorProofs Vld.ProofsSpreads Vld.ProofsSecondary Vld.ProofsSecondaryAll Vld.ProofsSpreadsSpec Vld.ProofsFieldsConverse Vld.ProofsVarsConverse Vld.ProofsComplete Vld.ProofsCollect Vld.ProofsMergeSound Vld.ProofsMergeNames Vld.ProofsMergeLocal Vld.ProofsCollectEntries Vld.ProofsMergeSpec Vld.ProofsValid Vld.ProofsPossibleFields Vld.ProofsSpecCollect Vld.ProofsSubscription Vld.ProofsSpecReach Vld.ProofsVarsSpec Vld.ProofsDepth Vld.ProofsDepthRule Vld.MemoTransfer Vld.ProofsMemoConverse Vld.MemoEquiv Vld.ProofsTypeInfoValues Vld.Witness Vld.ProofsSpecMergeTheory Vld.ProofsSpecCollectP Vld.ProofsSpecLoc Vld.ProofsMergeBridge Vld.ProofsMergeComplete Vld.ProofsVerdict Vld.ValidatorCheck Vld.ProofsLocatedBase Vld.ProofsLocated Vld.ProofsLocatedPos Vld.ProofsLocatedAll.
 Import ListNotations.
 
 (** ** determinism: acceptance is a function of schema, features and document alone *)
@@ -835,6 +845,26 @@ Theorem C04_invalid_rejected : forall pi S F D,
   valid_all S F D = false -> exists e errs, validate_model_memo repaired pi S F D = Done (e :: errs).
 Proof. exact invalid_rejected. Qed.
 
+(** ** validate_error_located *)
+(** whenever a node occurs in the tree of a document, so do all the nodes ast.Inspect visits beneath it
+    ([tree_of n]: the tree it walks from [n]) *)
+Theorem C04_node_closure : forall D n,
+  In n (tree_nodes (tree_doc D)) -> incl (tree_nodes (tree_of n)) (tree_nodes (tree_doc D)).
+Proof. exact node_closure. Qed.
+(** NewTypeInfo moves nothing: the node positions of the annotated document are those of the document *)
+Theorem C04_node_positions_annotated : forall qo S F D,
+  all_node_positions (pti_doc qo S F D) = all_node_positions D.
+Proof. exact node_positions_pti. Qed.
+(** every error returned has a location, and each location is the position of a node of the document *)
+Theorem C04_validate_error_located : forall pi, order_ok pi -> forall S F D errs e,
+  validate_model_memo repaired pi S F D = Done errs -> In e errs ->
+  e_locs e <> [] /\ forall p, In p (e_locs e) -> In p (all_node_positions D).
+Proof. exact validate_error_located. Qed.
+Theorem C04_validate_error_located_plain : forall pi, order_ok pi -> forall S F D errs e,
+  validate_model repaired pi S F D = Done errs -> In e errs ->
+  e_locs e <> [] /\ forall p, In p (e_locs e) -> In p (all_node_positions D).
+Proof. exact validate_error_located_plain. Qed.
+
 (** ** the repaired defects: with the repair switched off the model shows the defect *)
 (** DESIGN 6 row 8: a violation beneath a node carrying arguments / directives was accepted *)
 Theorem C04_refuted_before_fix_descend :
@@ -952,3 +982,7 @@ Print Assumptions C04_valid_merge_pass_silent.
 Print Assumptions C04_validate_verdict.
 Print Assumptions C04_validate_verdict_plain.
 Print Assumptions C04_invalid_rejected.
+Print Assumptions C04_node_closure.
+Print Assumptions C04_node_positions_annotated.
+Print Assumptions C04_validate_error_located.
+Print Assumptions C04_validate_error_located_plain.
